@@ -21,36 +21,70 @@ open Types
 def Covers (h : Hier) (fuel : Nat) (t : Nat) : Prop := ∀ u, Sub h t u → u ∈ bfs h fuel [t]
 
 theorem C17_bfs_sound (h : Hier) (fuel : Nat) (t u : Nat) (hu : u ∈ bfs h fuel [t]) : Sub h t u := by
-  sorry
+  obtain ⟨s, hs, hsub⟩ := bfs_sound_queue h fuel [t] u hu
+  rw [List.mem_singleton] at hs
+  subst hs
+  exact hsub
 
 /-- registration: after `new_instance(t)` the item is with exactly the types the walk reaches -/
 theorem C17_new_instance_registers (h : Hier) (fuel : Nat) (st : Store) (t i u : Nat) :
     (i ∈ newInstance h fuel st t i u ↔ (i ∈ st u ∨ u ∈ bfs h fuel [t])) ∧
     ∀ j, j ≠ i → (j ∈ newInstance h fuel st t i u ↔ j ∈ st u) := by
-  sorry
+  constructor
+  · rw [newInstance_mem]
+    simp
+  · intro j hj
+    rw [newInstance_mem]
+    simp [hj]
 
 /-- the domain of a variable: exactly the items created so far whose class is the type or a subtype -/
 theorem C17_domain_exact (h : Hier) (fuel : Nat) (ops : List (Nat × Nat))
     (hc : ∀ op ∈ ops, Covers h fuel op.1) (t i : Nat) :
     i ∈ existential (run h fuel ops) t ↔ ∃ op ∈ ops, op.2 = i ∧ Sub h op.1 t := by
-  sorry
+  constructor
+  · intro hi
+    rcases run_from_sound h fuel ops (fun _ => []) t i hi with h1 | h1
+    · cases h1
+    · exact h1
+  · intro hex
+    exact run_from_complete h fuel ops (fun _ => []) t i hc hex
 
 /-- domains are snapshots: later creations add, never remove -/
 theorem C17_domain_monotone (h : Hier) (fuel : Nat) (ops more : List (Nat × Nat)) (t i : Nat)
     (hi : i ∈ existential (run h fuel ops) t) : i ∈ existential (run h fuel (ops ++ more)) t := by
-  sorry
+  unfold existential run at *
+  rw [List.foldl_append]
+  exact run_from_keeps h fuel more _ t i hi
 
 /-- with a diamond the common ancestor receives the item once per path (multiplicity, not membership, is affected) -/
 example : existential (run ⟨fun t => if t = 3 then [1, 2] else if t = 1 ∨ t = 2 then [0] else []⟩ 10 [(3, 7)]) 0 = [7, 7] := by
-  sorry
+  decide
 
 /-- enum unions: own and transitively included values, nothing else -/
 theorem C17_enum_values_sound (e : Enums) (fuel : Nat) (t v : Nat) (hv : v ∈ allValues e fuel t) :
     ∃ u, Includes e t u ∧ v ∈ e.own u := by
-  sorry
+  induction fuel generalizing t with
+  | zero => simp [allValues] at hv
+  | succ n ih =>
+    simp only [allValues, List.mem_append, List.mem_flatMap] at hv
+    rcases hv with hv | ⟨w, hw, hv⟩
+    · exact ⟨t, Includes.refl t, hv⟩
+    · obtain ⟨u, hu, hvu⟩ := ih w hv
+      exact ⟨u, Includes.step hw hu, hvu⟩
 
 theorem C17_enum_values_complete (e : Enums) (t u v : Nat) (hi : Includes e t u) (hv : v ∈ e.own u) :
     ∃ fuel, ∀ f, fuel ≤ f → v ∈ allValues e f t := by
-  sorry
+  induction hi with
+  | refl t =>
+    refine ⟨1, fun f hf => ?_⟩
+    obtain ⟨f', rfl⟩ : ∃ f', f = f' + 1 := ⟨f - 1, by omega⟩
+    simp only [allValues, List.mem_append]
+    exact Or.inl hv
+  | step hw _ ih =>
+    obtain ⟨fuel, hfuel⟩ := ih hv
+    refine ⟨fuel + 1, fun f hf => ?_⟩
+    obtain ⟨f', rfl⟩ : ∃ f', f = f' + 1 := ⟨f - 1, by omega⟩
+    simp only [allValues, List.mem_append, List.mem_flatMap]
+    exact Or.inr ⟨_, hw, hfuel f' (by omega)⟩
 
 end Oratio
